@@ -90,15 +90,15 @@ theorem lowered_outputs_correct {P O V : Type} (sem : P → List V → List V) (
 -- non-vacuity: the one-equation program `y = neg x` over ℤ lowered to one `neg` node satisfies
 -- the per-equation hypothesis, hence `Lowered`.
 section Example
-private def semEx : String → List Int → List Int
+def semEx : String → List Int → List Int
   | "neg", [a] => [-a]
   | _, _ => []
-private def e1 : Eqn String Int := ⟨"neg", [.var 0], [some 1]⟩
-private def n1 : GNode String := ⟨"neg", [10], [11]⟩
-private def m0 : Nat → Option Nat := fun x => if x = 0 then some 10 else none
-private def m1 : Nat → Option Nat := fun x => if x = 1 then some 11 else m0 x
+def e1 : Eqn String Int := ⟨"neg", [.var 0], [some 1]⟩
+def n1 : GNode String := ⟨"neg", [10], [11]⟩
+def m0 : Nat → Option Nat := fun x => if x = 0 then some 10 else none
+def m1 : Nat → Option Nat := fun x => if x = 1 then some 11 else m0 x
 
-private theorem e1_lowered : EqnLowered semEx semEx e1 m0 [n1] m1 := by
+theorem example_eqn_lowered : EqnLowered semEx semEx e1 m0 [n1] m1 := by
   refine ⟨?_, ?_⟩
   · intro g vals hb _
     match vals, hb with
@@ -122,7 +122,7 @@ private theorem e1_lowered : EqnLowered semEx semEx e1 m0 [n1] m1 := by
       intro h; subst h; exact hx (by simp [e1])
     simp [m1, this]
 
-example : Lowered semEx semEx m0 [e1] ([n1] ++ []) m1 := .cons e1_lowered (.nil m1)
+example : Lowered semEx semEx m0 [e1] ([n1] ++ []) m1 := .cons example_eqn_lowered (.nil m1)
 end Example
 
 /-! ### `bind_returned_lowering_values` -/
